@@ -349,6 +349,14 @@ func VerifC01_Management() {
 		rt.Assert(countEv(i, 2, false, false) == countEv(i, 1, true, true), "mgmt/stop-once-per-successful-start")
 	}
 	checkOrder(deps, "mgmtorder")
+	// a management pass that arrives after the shutdown (e.g. one that waited
+	// for the management lock while the shutdown ran) starts nothing
+	if rt.Bool("late-management-pass") {
+		_ = ManageModules()
+		for _, m := range mods {
+			rt.Assert(m.Status() != StatusOnline, "mgmt/no-module-online-after-a-management-pass-behind-the-shutdown")
+		}
+	}
 	rt.Reach("mgmt-end")
 }
 
